@@ -9,6 +9,7 @@ namespace Drv
 partial def parseNode : List String → Option (Node × List String)
   | "C" :: r => some (.comment, r)
   | "P" :: r => some (.pi, r)
+  | "N" :: r => some (.entity, r)
   | "T" :: t :: r => some (.text (unesc t), r)
   | "E" :: tag :: n :: r =>
     match n.toNat? with
@@ -46,6 +47,7 @@ def decTree (s : String) : Option Node :=
 partial def encNode : Node → List String
   | .comment => ["C"]
   | .pi => ["P"]
+  | .entity => ["N"]
   | .text t => ["T", esc t]
   | .elem _ tag as cs =>
     ["E", esc tag, toString as.length] ++ as.flatMap (fun (k, v) => [esc k, esc v]) ++
